@@ -21,6 +21,7 @@ ASSUMPTIONS = ["pytrie longest-prefix contract stub", "pydantic BaseModel stub (
 SHAPES = [
     ("agree", [[1, 1]], False, Q), ("agree", [[1, 1]], True, Q), ("agree", [[0, 0], [0, 0]], False, Q),
     ("agree", [[1, 0]], False, Q, dict(params=dict(patterns=["^\\d{7}$"]))),
+    ("agree", [[0, 0], [0, 0]], False, Q, dict(params=dict(built="grow"), shard=5)), ("agree", [[0, 1]], False, Q, dict(params=dict(built="used"))),
     ("agree", [[1, 1], [1, 1]], False, T, dict(budget=1800, shard=8)),
     ("agree", [[0, 0], [0, 0]], True, T, dict(budget=1200, shard=6)),
     ("agree", [[0, 0]] * 3, False, T, dict(budget=2400, shard=9)),
